@@ -165,6 +165,27 @@ class Ctx:
         else: self._numq['uniform'].append(u); self._patch_random()
         return u
 
+    def boundary_uniform(self, name, log_threshold):
+        """like next_uniform; in the numeric twin the value is placed just below or just above exp(min(0, log_threshold())) (side chosen
+        by the generated input), so that a kernel whose acceptance threshold differs from the specified one is exposed by a single
+        transition instead of with the small probability that a random u falls between the two thresholds"""
+        from . import shims
+        u = self.real(name, lo=0, hi=1)
+        if self.sym:
+            shims.PRESET['uniform'].append(u); return u
+        if not (self.inputs is not None and name in self.inputs):      # (a replay uses the recorded value as it is)
+            t = float(log_threshold())
+            if np.isfinite(t):
+                p = float(np.exp(min(0.0, t)))
+                Ctx._boundary_count = getattr(Ctx, '_boundary_count', 0) + 1
+                below = Ctx._boundary_count % 2 == 0             # sides alternate deterministically over the runs of a job
+                if p >= 1.0: v = 1.0 - 1e-9                         # always accepted
+                else: v = p * (1 - 1e-6) if below else min(p * (1 + 1e-6), 1.0 - 1e-12)
+                if 0.0 < v < 1.0:
+                    u = v; self.symnames[name] = v
+        self._numq['uniform'].append(u); self._patch_random()
+        return u
+
     def next_normal(self, name='xi', n=None):
         """the next standard-normal draw (abstract vector if n is None, else n-vector)"""
         from . import shims
@@ -181,8 +202,11 @@ class Ctx:
         def take(fam, shape):
             if not q[fam]: raise RuntimeError(f"contract did not name this {fam} draw")
             v = q[fam].pop(0)
-            if shape not in (None, ()) and np.ndim(v) > 0:
-                try: v = np.reshape(v, shape) if np.size(v) == int(np.prod(shape)) else v
+            if shape not in (None, ()):
+                # numpy returns an array of the requested shape (also for one element): the named draw fills it
+                try:
+                    n = int(np.prod(shape))
+                    if np.size(v) == n: v = np.reshape(np.asarray(v, dtype=float), shape)
                 except Exception: pass
             return v
         nr.rand = lambda *sh: take('uniform', sh or None)
